@@ -439,19 +439,25 @@ func tail(path string, n int) string {
 }
 
 func loadKnown(prop string) []knownFinding {
-	b, err := os.ReadFile(filepath.Join(root, "known_findings.json"))
-	if err != nil {
-		return nil
-	}
-	var kf knownFile
-	if err := json.Unmarshal(b, &kf); err != nil {
-		fmt.Fprintln(os.Stderr, "known_findings.json:", err)
-		os.Exit(2)
-	}
+	files := []string{filepath.Join(root, "known_findings.json")}
+	more, _ := filepath.Glob(filepath.Join(root, "known_findings.d", "*.json"))
+	sort.Strings(more)
+	files = append(files, more...)
 	var out []knownFinding
-	for _, f := range kf.Findings {
-		if f.Property == prop && f.Status == "open" {
-			out = append(out, f)
+	for _, fn := range files {
+		b, err := os.ReadFile(fn)
+		if err != nil {
+			continue
+		}
+		var kf knownFile
+		if err := json.Unmarshal(b, &kf); err != nil {
+			fmt.Fprintln(os.Stderr, fn+":", err)
+			os.Exit(2)
+		}
+		for _, f := range kf.Findings {
+			if f.Property == prop && f.Status == "open" {
+				out = append(out, f)
+			}
 		}
 	}
 	return out
